@@ -90,6 +90,9 @@ def all_programs():
 
 # hand-written programs aimed at individual rules of the value analysis (C01)
 VALUE_PROGRAMS = [
+    # a loop whose head is the function's own label, moving sp and a saved register in the loop
+    "main:\n    li a0, 2\n    call f\n    li a7, 10\n    ecall\nf:\n    addi sp, sp, -4\n    addi a0, a0, -1\n    bnez a0, f\n    addi sp, sp, 4\n    ret\n",
+    "main:\n    li a0, 2\n    call f\n    li a7, 10\n    ecall\nf:\n    addi s0, s0, 1\n    addi a0, a0, -1\n    bnez a0, f\n    addi s0, s0, -1\n    ret\n",
     # a conditional branch back to the function's own entry with a temporary live on the fall-through path
     "main:\n    li a0, 3\n    call countdown\n    li a7, 1\n    ecall\n    li a7, 10\n    ecall\ncountdown:\n    addi a0, a0, -1\n    li a3, 100\n    bnez a0, countdown\n    add a0, a0, a3\n    ret\n",
 
